@@ -238,6 +238,21 @@ def run_case(case, res):
                                             res.count("mermaid_shape_mismatch")
                                         res.count("mermaid_shapes_rebuilt")
                     # ---------------- RDF ---------------------------
+                if isroot:
+                    # the system root as start node with add_self=False: the root and the edges leaving it are omitted, nothing else
+                    g0 = attempt(lambda: t.system_root.to_rdf_graph(add_self=False))
+                    res.count("rdf_exports_from_system_root_without_self")
+                    if isinstance(g0, tuple):
+                        bad.append(f"system_root.to_rdf_graph(add_self=False) raised {g0!r}")
+                    else:
+                        got0 = {(s, o) for s, p, o in g0.triples((None, NUTREE_NS.has_child, None))}
+                        exp0 = {(Literal(x.parent.data_id), Literal(x.data_id)) for x in D if x.parent is not None}
+                        if got0 != exp0:
+                            bad.append(f"RDF has_child from the system root without itself: got {sorted(map(str, got0))}, expected {sorted(map(str, exp0))}")
+                        gotn0 = {(s, o) for s, p, o in g0.triples((None, NUTREE_NS.name, None))}
+                        expn0 = {(Literal(x.data_id), Literal(gen.expected_name(x))) for x in D}
+                        if gotn0 != expn0:
+                            bad.append(f"RDF name triples from the system root without itself: got {sorted(map(str, gotn0))}, expected {sorted(map(str, expn0))}")
                 for add_self in ((True,) if isroot else (True, False)):
                     if isroot:
                         g = attempt(lambda: t.to_rdf_graph())
